@@ -57,6 +57,7 @@ def main():
     ap.add_argument('--all', action='store_true')
     ap.add_argument('--only')
     ap.add_argument('--kind', default='all', choices=['all', 'seeded', 'mutants'])
+    ap.add_argument('--shard', default='0/1', help='k/n: only every n-th item starting at k (parallel audits)')
     args = ap.parse_args()
     if not args.all:
         rc, _ = run_one(args.pid, args.patch, args.reverse, args.tier, args.seed)
@@ -71,7 +72,10 @@ def main():
     for p in sorted(glob.glob(os.path.join(HERE, 'mutants', '*.patch'))) if args.kind != 'seeded' else []:
         name = os.path.basename(p)
         items.append((name.split('_')[0], p, name, name.endswith('.rev.patch')))
-    for pid, patch, name, rev in items:
+    k, n = (int(x) for x in args.shard.split('/'))
+    for idx, (pid, patch, name, rev) in enumerate(items):
+        if idx % n != k:
+            continue
         if args.only and args.only not in (pid, name):
             continue
         rc, _ = run_one(pid, patch, reverse=rev, tier=args.tier, seed=args.seed, verbose=False)
